@@ -588,7 +588,10 @@ def run_unit(unit, tier='quick'):
                 okeys[k] = True
             except Exception:
                 okeys[k] = False
-        v, m, t = core.z3_check(hyps + links, z3.BoolVal(True), 10000, evals=ev)
+        if unit.opts.get('no_crosscheck') and any(cv.get('verdict') == 'sat' for cv in res['covers']):
+            v, m, t = 'skipped', None, 0.0      # vacuity guard already satisfied; no model needed
+        else:
+            v, m, t = core.z3_check(hyps + links, z3.BoolVal(True), 4000, evals=ev)
         cover = dict(path=pi, taken=''.join('T' if b else 'F' for b in p.taken), verdict=v)
         if v == 'unsat':
             cover['dropped'] = True
@@ -604,7 +607,7 @@ def run_unit(unit, tier='quick'):
             cover['outcome'] = p.outcome[0] if p.outcome[0] == 'ok' else type(p.outcome[1]).__name__
         res['covers'].append(cover)
         items = [(n, g, k) for (n, g, k) in p.goals]
-        for (kind, cond, site) in p.oblig:
+        for (kind, cond, site) in ([] if unit.opts.get('no_safety') else p.oblig):
             items.append((_Marked(f"safe:{kind}", site[1]), cond, 'safety'))
         for (name, g, kind) in items:
             o = ob(str(name)); o['instances'] += 1; o['kind'] = kind
